@@ -57,6 +57,13 @@ CHECKS = {
         note="Trusted: TLC, Fractions for the random trees. The algebraic identity for all positive reals is checked on the lattice exactly and sampled elsewhere; floating-point associativity is only required to 1e-11 relative.",
         ref="§3 C11",
     ),
+    "C14": dict(
+        level="model_checking",
+        technique="TLA+ spec Tracker.tla (Handle per interrupt for DropletTracker, LengthScaleTracker and the storage; Finalize writes keyed datasets; offline analysis as a function of the storage) model-checked by TLC over histories x settings x sources x methods; spec->code replay through real trackers with the analysis call arguments logged, plus real solver runs",
+        text="TLC enumerates every history of <=2-3 frames over a 4-frame alphabet (no droplet, one, two, one below the minimal radius) with increasing, repeated, decreasing and restarting time sequences, all 64 combinations of threshold rule x minimal radius x refine x refine_args x modes (or a covering subset with all three source selections and all three length-scale methods) and checks OnlineEqualsOffline, FilePersists, FramePerInterrupt, TimesIdentical, LengthScalePerFrame, LengthScaleFile, AppendOnly, Termination; the reader that orders datasets by time attribute is refuted by TLC. Each history (quick 3e3) is driven through real DropletTracker/LengthScaleTracker objects beside a MemoryStorage: the keyword arguments reaching locate_droplets must be the spec's call record, tracker.data must equal EmulsionTimeCourse.from_storage with the same settings (classes, dtypes, data bytes, times), the HDF5 file must read back identical, each length scale must be the value (or NaN on exception) of get_length_scale for that frame, the JSON file the two lists; LengthScaleTracker is also run on polar/spherical/cylindrical/1-D/3-D grids where the analysis raises; Cahn-Hilliard and diffusion solver runs are compared online vs offline.",
+        note="Trusted: TLC; pde's MemoryStorage and solver controller. The analysis is uninterpreted in the spec (equality of results is observed, not derived).",
+        ref="§3 C14",
+    ),
     "C15": dict(
         level="model_checking",
         technique="TLA+ spec Parallel.tla (executor.map as Take/Finish/Yield with W workers, None-filter) model-checked by TLC over all interleavings; every complete schedule forced in real ProcessPoolExecutors (spec->code) and the workers' start/end logs validated by TraceParallel.tla (code->spec)",
